@@ -860,8 +860,11 @@ def gen_cases(rng, tier):
     cases = []
     for st in FIXED:
         cases.append(make_case(rng, st, "fixed"))
-    for st in UNSUPPORTED:
-        cases.append(make_case(rng, st, "unsupported", supported=False))
+    for k, st in enumerate(UNSUPPORTED):
+        c = make_case(rng, st, "unsupported", supported=False)
+        # these spellings compile silently and give a table different from the parser's: recorded findings, judged as such
+        c.meta["finding"] = "C19-int-key-by-value" if k < 4 else "C19-negative-i32-wrap"
+        cases.append(c)
     n = N_DOCS.get(tier, 300)
     seen = set()
     while len(cases) < n:
@@ -901,6 +904,9 @@ def oracle(case, _core_line):
     if line is None:
         return "case carries no document text"
     if not case.meta.get("supported", True):
+        f = fields(line)
+        if case.meta.get("finding") and f.get("macro") != f.get("ref") and f.get("ref") != "invalid":
+            return "toml!{..} and str::parse::<Table>() disagree on `%s` (%s)" % (case.meta["text"].strip(), case.meta["finding"])
         return None                                   # outside the claim (correspondence only)
     f = fields(line)
     if f.get("macro") == "E:compile":
@@ -914,6 +920,10 @@ def oracle(case, _core_line):
         return "toml!{..} and str::parse::<Table>() disagree on `%s`: macro=%s parse=%s" % (
             case.meta["text"].strip().replace("\n", " | "), f.get("macro"), f.get("ref"))
     return None
+
+
+def known_class(case, _core_line):
+    return case.meta.get("finding")
 
 
 def compare(case, model_line, _core_line):
@@ -965,6 +975,7 @@ def extra_coverage(cases, impl, model):
 THEOREMS = [
     "C19_macro_eq_parse: forall l t, macro_supported l = true -> eval l = Some t -> macro_eval (tokens_of l) = EOk t  (the full claim, on the model)",
     "C19_macro_total: supported valid documents expand without error within the model's fuel",
+    "C19_eval_is_the_specification / C19_macro_eq_spec: every document the unmodified claims specification of C09 (Spec/Defs.v spec_run) calls valid is valid for eval, with the same content under every key recursively (order of keys aside); hence the macro's table has the content of the specified tree",
     "C19_helpers_follow_definition_rules / C19_helper_step: insert_toml, insert_table_toml, push_toml through traverse build what the TOML definition rules say, statement by statement, on every valid document",
     "C19_value_eq_parse / C19_datetime_rules: every supported value (signed numbers through rustc's literal typing, the four date-time kinds with T/t/space, fraction, Z/z/-hh:mm through stringify!+from_str and C12, arrays and inline tables through the @trailingcomma/@array/@table loops) gets its TOML meaning",
     "C19_int_key_refuted, C19_negative_wrap_refuted: two families of spellings that compile but are outside macro_supported (`05 = 1` names key \"5\"; `a = -2147483649` wraps to 2147483647), witnesses replayed on the real macro",
